@@ -68,7 +68,7 @@ def load_known():
         return json.load(f).get("findings", [])
 
 
-def match_known(prop, plan_min, v, known):
+def match_known(prop, plan_min, v, known, plan_orig=None, v_orig=None):
     sig = step_sig(plan_min)
     for k in known:
         if k.get("status") != "open" or k.get("property") != prop:
@@ -84,8 +84,15 @@ def match_known(prop, plan_min, v, known):
             continue
         if "recipe_contains" in m and not all(x in jdump(plan_min["objects"]) for x in m["recipe_contains"]):
             continue
-        if "explain" in m and not getattr(get_machine(prop), "explain_" + m["explain"])(plan_min, v):
-            continue
+        if "explain" in m:
+            mach = get_machine(prop)
+            if not getattr(mach, "explain_" + m["explain"])(plan_min, v):
+                continue
+            # the run as found (before minimisation) must already have the finding's shape:
+            # minimisation must not be able to move another defect into a known finding
+            orig = getattr(mach, "explain_" + m["explain"] + "_orig", None)
+            if orig is not None and plan_orig is not None and not orig(plan_orig, v_orig):
+                continue
         return k
     return None
 
@@ -120,7 +127,9 @@ def one_run(machine, master, idx, oracle, shrink_budget):
             sh = Shrinker(ev, vclass(v), shrink_budget)
             pmin = sh.run(plan)
             vmin = [x for x in ev(pmin) if vclass(x) == vclass(v)]
-            res["violations"].append({"plan": plan, "plan_min": pmin, "v": (vmin or [v])[0], "v0": v})
+            po = dict(plan)
+            po["_outcomes"] = {str(e["id"]): [e["out"][0], bool(e.get("flt", {}).get("fired"))] for e in hist}
+            res["violations"].append({"plan": po, "plan_min": pmin, "v": (vmin or [v])[0], "v0": v})
     return res, plan, hist
 
 
@@ -322,7 +331,7 @@ def batch(a, prop, machine, t0):
     os.makedirs(os.path.join(VERIF_DIR, "out", "replays"), exist_ok=True)
     reported = set()
     for v in sorted(agg["violations"], key=lambda x: x["idx"]):
-        k = match_known(prop, v["plan_min"], v["v"], known)
+        k = match_known(prop, v["plan_min"], v["v"], known, v.get("plan"), v.get("v0"))
         if k is not None:
             known_hits[k["id"]] = known_hits.get(k["id"], 0) + 1
             continue
